@@ -367,6 +367,7 @@ CHECKS = {
             T('MC_Req', 'Req_q18.cfg'), T('MC_RawSock', 'Raw_xpush_fnp.cfg'), T('MC_RepLike', 'Rep_quick.cfg'),
             T('MC_Req', 'Req_2ctx_deadl.cfg', tiers=('thorough',)), T('MC_Req', 'Req_2ctx_be.cfg', tiers=('thorough',)),
             T('MC_Req', 'Req_2ctx_fnp.cfg', tiers=('thorough',)),
+            T('MC_Req', 'Req_live_all.cfg', workers=8, tiers=('thorough',)),   # SendReturns under fairness: a waiting Send returns (deadlines, fail-no-peers, a Recv deadline giving the request up)
             C('req', 'TestReq', 'TraceReq', n={'quick': 25, 'thorough': 400}, env={'VERIF_MIX': 'deadline'}),
             C('rep', 'TestRep', 'TraceRep', n={'quick': 15, 'thorough': 300}, env={'VERIF_MIX': 'deadline'}),
             C('respondent', 'TestRespondent', 'TraceRespondent', n={'quick': 15, 'thorough': 300}, env={'VERIF_MIX': 'deadline'}),
@@ -464,6 +465,7 @@ CHECKS = {
             T('MC_Req', 'Req_q04.cfg'),
             T('MC_Req', 'Req_2ctx_retry.cfg', tiers=('thorough',)),
             T('MC_Req', 'Req_live.cfg', workers=8, tiers=('thorough',)),   # liveness under fairness: QueuedDispatched, SendReturns, NeverOrphaned (609 k states)
+            T('MC_Req', 'Req_live_all.cfg', workers=8, tiers=('thorough',)),   # two threads, deadlines and fail-no-peers on (304 k states)
             T('MC_Req', 'Req_1ctx_all.cfg', tiers=('thorough',)),
             C('req', 'TestReq', 'TraceReq', n={'quick': 60, 'thorough': 1000}, env={'VERIF_REQ_MIX': 'faults'}),
             C('reqscn', 'TestReq', 'TraceReq', file='req', n={'quick': 150, 'thorough': 1500},
